@@ -744,6 +744,10 @@ func runC20(c *engine.Ctx) {
 	checkWaitClock(c, "R8")
 	checkSidWorker(c, "R9")
 	checkEarlyMessages(c, "R10")
+	// ---- R11 the session and client tables are written under the write lock (shared with C16.R1): an insert under the read
+	// lock racing with another visitor's is a fatal runtime error, not an error response ----
+	c16MapsRule(c, engine.AnalyzeLocks(c.P), "R11")
+	checkRangeSweep(c, "R12")
 }
 
 // checkEarlyMessages (R10): NatHoleClient and NatHoleReport are sent by peers whenever they like — also before the
@@ -1249,4 +1253,134 @@ func alwaysNilResult(v ssa.Value) bool {
 		}
 	})
 	return all && any
+}
+
+// checkRangeSweep (R12): the party told to probe the candidate port ranges sends to every port of each range, both ends
+// included (the controller's ranges are inclusive: a one-port range {p,p} is a legal instruction). The sweep loop is
+// evaluated symbolically: with the loop variable running from its initial value to its last value, the port handed to
+// strconv.Itoa must run from PortsRange.From to PortsRange.To exactly.
+func checkRangeSweep(c *engine.Ctx, rule string) {
+	c.Rule(rule, "sendSidMessageToRangePorts: the port formatted into the probe address is a linear function of the sweep loop's variable whose first value is PortsRange.From and whose last value is PortsRange.To (inclusive bounds, whatever the loop form)")
+	f := fn(c, "pkg/nathole.sendSidMessageToRangePorts")
+	fromF := field(c, "pkg/msg", "PortsRange", "From")
+	toF := field(c, "pkg/msg", "PortsRange", "To")
+	if f == nil || fromF == nil || toF == nil {
+		return
+	}
+	// linear forms over (i, From, To, 1)
+	type lin struct{ i, from, to, k int64 }
+	var eval func(v ssa.Value, iv ssa.Value, d int) (lin, bool)
+	eval = func(v ssa.Value, iv ssa.Value, d int) (lin, bool) {
+		if d > 8 {
+			return lin{}, false
+		}
+		if iv != nil && v == iv {
+			return lin{i: 1}, true
+		}
+		if k, ok := engine.ConstInt(v); ok {
+			return lin{k: k}, true
+		}
+		switch x := v.(type) {
+		case *ssa.Convert:
+			return eval(x.X, iv, d+1)
+		case *ssa.ChangeType:
+			return eval(x.X, iv, d+1)
+		case *ssa.BinOp:
+			a, ok1 := eval(x.X, iv, d+1)
+			b, ok2 := eval(x.Y, iv, d+1)
+			if !ok1 || !ok2 {
+				return lin{}, false
+			}
+			switch x.Op {
+			case token.ADD:
+				return lin{a.i + b.i, a.from + b.from, a.to + b.to, a.k + b.k}, true
+			case token.SUB:
+				return lin{a.i - b.i, a.from - b.from, a.to - b.to, a.k - b.k}, true
+			}
+			return lin{}, false
+		}
+		if lf, _ := engine.LoadedField(v); lf == fromF {
+			return lin{from: 1}, true
+		} else if lf == toF {
+			return lin{to: 1}, true
+		}
+		return lin{}, false
+	}
+	n := 0
+	engine.ForEachInstr(f, func(in ssa.Instruction) {
+		call, ok := in.(*ssa.Call)
+		if !ok {
+			return
+		}
+		o := engine.CalleeObj(call)
+		if o == nil || o.Pkg() == nil || o.Pkg().Path() != "strconv" || o.Name() != "Itoa" {
+			return
+		}
+		n++
+		key := "pkg/nathole.sendSidMessageToRangePorts>sweep"
+		h := engine.LoopHeader(call.Block())
+		if h == nil {
+			c.Violate(key, call.Pos(), nil, "the probe address is not built inside a loop over the range")
+			return
+		}
+		// the loop variable: a phi of the header with one edge from outside (initial value) and one from the body (step +1)
+		var iv *ssa.Phi
+		var init ssa.Value
+		for _, x := range h.Instrs {
+			ph, ok := x.(*ssa.Phi)
+			if !ok {
+				break
+			}
+			for ei, e := range ph.Edges {
+				if bo, ok := e.(*ssa.BinOp); ok && bo.Op == token.ADD && bo.X == ssa.Value(ph) {
+					if k, isC := engine.ConstInt(bo.Y); isC && k == 1 {
+						iv = ph
+						for ej, e2 := range ph.Edges {
+							if ej != ei {
+								init = e2
+							}
+						}
+					}
+				}
+			}
+		}
+		if iv == nil || init == nil {
+			c.Undecide(key, call.Pos(), "cannot identify the counting variable of the sweep loop")
+			return
+		}
+		lo, okLo := eval(init, nil, 0)
+		// last value: classic head test `i <= L` / `i < L`; range-over-int: back-edge test `i+1 < B`
+		var hi lin
+		okHi := false
+		if t, isIf := h.Instrs[len(h.Instrs)-1].(*ssa.If); isIf {
+			if bo, ok := t.Cond.(*ssa.BinOp); ok && bo.X == ssa.Value(iv) {
+				if l, ok := eval(bo.Y, nil, 0); ok {
+					switch bo.Op {
+					case token.LEQ:
+						hi, okHi = l, true
+					case token.LSS:
+						hi, okHi = lin{l.i, l.from, l.to, l.k - 1}, true
+					}
+				}
+			}
+		}
+		if !okHi {
+			if b, ok := engine.LoopBound(h); ok {
+				if l, ok := eval(b, nil, 0); ok {
+					hi, okHi = lin{l.i, l.from, l.to, l.k - 1}, true
+				}
+			}
+		}
+		port, okP := eval(call.Call.Args[0], iv, 0)
+		if !okLo || !okHi || !okP || port.i != 1 {
+			c.Undecide(key, call.Pos(), "the sweep loop or the port expression is not a linear form over the loop variable and the range bounds")
+			return
+		}
+		first := lin{0, port.from + lo.from, port.to + lo.to, port.k + lo.k}
+		last := lin{0, port.from + hi.from, port.to + hi.to, port.k + hi.k}
+		okAll := first == lin{from: 1} && last == lin{to: 1}
+		c.Check(okAll, key, call.Pos(), 4, []string{fmt.Sprintf("first port = %d·From + %d·To + %d", first.from, first.to, first.k), fmt.Sprintf("last port = %d·From + %d·To + %d", last.from, last.to, last.k)},
+			"the sweep probes From … To inclusive (first port %d·From%+d·To%+d, last port %d·From%+d·To%+d)", first.from, first.to, first.k, last.from, last.to, last.k)
+	})
+	c.Floor(n, 1)
 }
